@@ -205,6 +205,8 @@ class Ref:
                     return self.zero
                 return left * right
             raise NotImplementedError(ast.dump(e))
+        if isinstance(e, ast.UnaryOp) and isinstance(e.op, ast.UAdd):
+            return self.E(e.operand, index, diagonal)
         if isinstance(e, ast.UnaryOp) and isinstance(e.op, ast.USub):
             v = self.E(e.operand, index, diagonal)
             return self.neg(v) if not isinstance(v, (int, float)) else -v
